@@ -167,7 +167,10 @@ def cleanup_old_processed_messages(
     """Clean up old processed message records."""
     cutoff = datetime.now(UTC) - timedelta(hours=max_age_hours)
     cursor = conn.execute(
-        "DELETE FROM processed_messages WHERE processed_at < :cutoff",
+        # processed_at is written by SQLite's datetime('now') ("YYYY-MM-DD HH:MM:SS");
+        # compared as text with an ISO cutoff ("...T...+00:00") every record of the
+        # cutoff's calendar day sorted below it and was deleted, however young.
+        "DELETE FROM processed_messages WHERE datetime(processed_at) < datetime(:cutoff)",
         {"cutoff": cutoff.isoformat()},
     )
     conn.commit()
